@@ -309,6 +309,24 @@ pub fn check_case(ctx: &mut Ctx, case: &Case, cfg: &Cfg, props: &[String], want_
         }
     };
     bump(&mut res, "C04");
+    // what the generator knows travels with the base call (for the TLA+ predicates)
+    if a > 0 {
+        let cp = |b: usize| cp_offset(text, b.min(text.len()));
+        let rec = &mut res.session.calls[a - 1];
+        if let Some(pm) = case.meta.get("prog") {
+            rec["marks"] = pm["marks"].clone();
+            rec["nplain"] = pm["nplain"].clone();
+            rec["regions"] = Value::Array(pm["regions"].as_array().map(|v| v.iter().map(|rg| json!([cp(rg[0].as_u64().unwrap() as usize), cp(rg[1].as_u64().unwrap() as usize)])).collect()).unwrap_or_default());
+        } else {
+            rec["regions"] = Value::Array(crate::toggle::regions(text, &tin).iter().map(|(s, e)| json!([cp(*s), cp(*e)])).collect());
+        }
+        let asm: Vec<usize> = stages(&base.events)
+            .iter()
+            .find(|st| st.stage == "ignore")
+            .map(|st| st.lines.iter().filter(|l| l.line_type == "AsmInstruction").flat_map(|l| l.tokens.iter().map(|t| t + 1)).collect())
+            .unwrap_or_default();
+        rec["asmtoks"] = json!(asm);
+    }
     if has(props, "C01") {
         bump(&mut res, "C01");
         if let Some(v) = c01(text, &tin, &out) {
@@ -329,6 +347,114 @@ pub fn check_case(ctx: &mut Ctx, case: &Case, cfg: &Cfg, props: &[String], want_
                 v.detail.push_str(" [site: continuation_indents x tab_width exceeds 255 columns]");
             }
             res.viols.push(v);
+        }
+    }
+
+    // ---- properties of well-formed programs that need the re-scanned output
+    let needs_tout = ["C02", "C05", "C07", "C12"].iter().any(|p| has(props, p));
+    let tout = if needs_tout { lex(&out).ok() } else { None };
+    if has(props, "C02") && wf {
+        if let Some(tout) = &tout {
+            bump(&mut res, "C02");
+            if let Some(v) = c02(text, &tin, &out, tout, cfg.format_multiline_strings) {
+                res.viols.push(v);
+            }
+        }
+    }
+    if has(props, "C12") {
+        if let Some(tout) = &tout {
+            let vmarks = crate::toggle::verbatim_marks(text, &tin);
+            let verbatim_literals: Vec<bool> = tin.iter().zip(&vmarks).filter(|(t, _)| t.kind == "TextLiteral(MultiLine)").map(|(_, m)| *m).collect();
+            let (vs, n) = c12(text, &tin, &out, tout, cfg, &verbatim_literals);
+            for _ in 0..n {
+                bump(&mut res, "C12");
+            }
+            res.viols.extend(vs);
+        }
+    }
+    let unsolved_site = if has_step(&base.events, "wrap_unsolved") { " [site: the program contains a line without a wrapping solution]" } else { "" };
+    if !unsolved_site.is_empty() && wf {
+        *res.nontrivial.entry("unsolved_in_wellformed").or_insert(0) += 1;
+    }
+    if let Some(pm) = case.meta.get("prog") {
+        if has(props, "C05") && wf {
+            if let Some(tout) = &tout {
+                let plain: Vec<&Tok> = tout.iter().filter(|t| !t.is_comment() && !t.is_directive() && t.kind != "Eof").collect();
+                if plain.len() as u64 == pm["nplain"].as_u64().unwrap_or(u64::MAX) {
+                    let (vs, checked, skipped) = c05(&out, &plain, pm["marks"].as_array().unwrap(), cfg);
+                    for _ in 0..checked {
+                        bump(&mut res, "C05");
+                    }
+                    res.skipped_precondition += skipped;
+                    for mut v in vs {
+                        v.detail.push_str(unsolved_site);
+                        res.viols.push(v);
+                    }
+                } else {
+                    res.skipped_precondition += 1;
+                }
+            }
+        }
+        if has(props, "C06") && wf {
+            for alt in pm["alts"].as_array().unwrap() {
+                let alt = alt.as_str().unwrap();
+                let r2 = ctx.run(alt, cfg, &[], false);
+                let b = res.session.call(&r2, wf);
+                res.session.rel("relayout", a, b);
+                bump(&mut res, "C06");
+                if let Ok(o2) = &r2.out {
+                    if *o2 != out {
+                        let lit_site = if only_space_after_literal_differs(&out, o2) { " [site: zero or one space after a literal / unknown character is taken from the input]" } else { "" };
+                        res.viols.push(Viol { prop: "C06", clause: "layout_independent", detail: format!("{}{unsolved_site}{lit_site}", first_diff(&out, o2)) });
+                    }
+                }
+            }
+        }
+        if has(props, "C07") {
+            for rg in pm["regions"].as_array().unwrap() {
+                let (s, e) = (rg[0].as_u64().unwrap() as usize, rg[1].as_u64().unwrap() as usize);
+                bump(&mut res, "C07");
+                if !out.contains(&text[s..e]) {
+                    res.viols.push(Viol { prop: "C07", clause: "region_verbatim", detail: format!("region {:?} is not reproduced byte for byte", &text[s..e]) });
+                }
+            }
+        }
+    }
+    if has(props, "C07") {
+        // every region computed by the specification's toggle recogniser from the scanned input
+        let regs = crate::toggle::regions(text, &tin);
+        let mut from = 0usize;
+        for (s, e) in &regs {
+            bump(&mut res, "C07");
+            match out[from..].find(&text[*s..*e]) {
+                Some(p) => from += p + (e - s),
+                None => {
+                    res.viols.push(Viol { prop: "C07", clause: "region_verbatim", detail: format!("region {:?} is not reproduced byte for byte (in order)", crate::mon::context(text, *s)) });
+                    break;
+                }
+            }
+        }
+        // the tokens marked as verbatim are exactly those of the regions (and asm instruction lines)
+        if let Some(fin) = final_stage(&base.events) {
+            if fin.kinds.len() == tin.len() {
+                let marks = crate::toggle::verbatim_marks(text, &tin);
+                let asm_line_tokens: std::collections::HashSet<usize> = stages(&base.events)
+                    .iter()
+                    .find(|st| st.stage == "ignore")
+                    .map(|st| st.lines.iter().filter(|l| l.line_type == "AsmInstruction").flat_map(|l| l.tokens.iter().copied()).collect())
+                    .unwrap_or_default();
+                for i in 0..tin.len() {
+                    let ignored = fin.fmt[i][0] != 0;
+                    if marks[i] && !ignored {
+                        res.viols.push(Viol { prop: "C07", clause: "region_marked", detail: format!("token {i} {:?} lies in a verbatim region but is formatted", tin[i].text(text)) });
+                        break;
+                    }
+                    if !marks[i] && ignored && !asm_line_tokens.contains(&i) {
+                        res.viols.push(Viol { prop: "C07", clause: "outside_formatted", detail: format!("token {i} {:?} is outside every verbatim region and asm body but is not formatted", tin[i].text(text)) });
+                        break;
+                    }
+                }
+            }
         }
     }
 
@@ -522,4 +648,27 @@ pub fn c11_widths(out: &str, base: u32) -> Vec<u32> {
 
 pub fn norm_nl(s: &str) -> String {
     s.replace("\r\n", "\n")
+}
+
+/// the two outputs scan to the same tokens and differ only in gaps "" vs " " that follow a literal or unknown token
+pub fn only_space_after_literal_differs(a: &str, b: &str) -> bool {
+    let (Ok(ta), Ok(tb)) = (lex(a), lex(b)) else { return false };
+    if ta.len() != tb.len() {
+        return false;
+    }
+    let mut any = false;
+    for i in 0..ta.len() {
+        if ta[i].kind != tb[i].kind || ta[i].text(a) != tb[i].text(b) {
+            return false;
+        }
+        let (wa, wb) = (ta[i].ws(a), tb[i].ws(b));
+        if wa != wb {
+            let lit = i > 0 && (ta[i - 1].kind.starts_with("TextLiteral") || ta[i - 1].kind.starts_with("NumberLiteral") || ta[i - 1].kind == "Unknown");
+            if !(lit && matches!((wa, wb), ("", " ") | (" ", ""))) {
+                return false;
+            }
+            any = true;
+        }
+    }
+    any
 }
